@@ -620,10 +620,7 @@ func doOp(ctx context.Context, dr uio.DagReader, o op, srcs []src, out *[]string
 		case "writeto":
 			var buf bytes.Buffer
 			n, err := dr.WriteTo(&buf)
-			if n != int64(buf.Len()) {
-				return fmt.Errorf("WriteTo returned %d but wrote %d bytes", n, buf.Len())
-			}
-			obs = append(obs, vh.App("BWrite", encode(buf.Bytes(), srcs, -1), errClass(err)))
+			obs = append(obs, vh.App("BWrite", encode(buf.Bytes(), srcs, -1), vh.Z(n), errClass(err)))
 		}
 	}
 	return nil
